@@ -177,6 +177,10 @@ def run(pid, tier, seed):
         rng.shuffle(cases)
         cases = cases[:limit]
     root = os.path.join(chk.workdir, "tree")
+    byinj = {}
+    for c in cases:
+        byinj[c.get("inject", "none")] = byinj.get(c.get("inject", "none"), 0) + 1
+    chk.notes["cases_by_injected_fault"] = byinj
     for ci, c in enumerate(cases):
         chk.count(1, traces=1)
         chk.distinct(json.dumps(c["files"], sort_keys=True))
@@ -231,8 +235,8 @@ def run(pid, tier, seed):
                             "'names the module/file' = the file name occurs in repr(err) or in the rendered diagnostic"]
         rule = ("(M) Gen_Modules[split]: Transparent and ErrNamesModule over %d file trees: every declare-before-use-respecting subset "
                 "of two 6-declaration schemas (all five kinds) moved to a module at paths of 1..3 segments, and every two-level split "
-                "(module importing a sub-module), each also with a syntax error / an undeclared type / the file deleted injected into "
-                "each module; (G) %d of them written to disk and loaded; (T) %d random file trees judged by Ora_Modules; distinct = "
+                "(module importing a sub-module), each also with a syntax error / an undeclared type / the file deleted / a declaration the front end's "
+                "callbacks raise on (unknown field parameter, string enumerator value, one-bound range) injected into each module; (G) %d of them written to disk and loaded; (T) %d random file trees judged by Ora_Modules; distinct = "
                 "distinct file tree" % (len(res.out), len(cases), n))
     return chk.finish(rule)
 
